@@ -3,7 +3,7 @@
 EXTENDS ReplaceType
 
 MCPositions  == {"param", "result", "both", "unnamed", "qualparam", "variadic", "ptr", "slice", "map", "chan",
-                 "func", "mixed", "viaalias", "viathird"}
+                 "func", "mixed", "viaalias", "viathird", "tparam", "targ", "tparamreal"}
 MCOthers     == {"none", "parambefore", "paramafter", "twinparam", "methodbefore", "methodafter", "ifaceU", "ifaceT"}
 MCSrcKinds   == {"named", "alias"}
 MCTargets    == {"named", "alias", "samename", "dstpkg"}
